@@ -202,3 +202,82 @@ func vPacketWriteLen(session bool) {
 
 func vH_C14_packet_write_session() { vPacketWriteLen(true) }
 func vH_C14_packet_write_dataack() { vPacketWriteLen(false) }
+
+// ---- H4.2 / H10.3 / H5.2: parsing an arbitrary datagram body ----
+//
+// The metadata has been authenticated (the sender holds a valid credential,
+// so EVERY field value may occur: protocol, prefix/payload/suffix lengths are
+// arbitrary), the rest of the datagram - `remaining`, every length 0..vParseMax
+// - is arbitrary bytes, and the ideal AEAD table holds one genuine payload seal
+// (2 bytes, nonce N0).  The real parser never panics; if it returns a segment,
+// the lengths recorded in the metadata describe the datagram EXACTLY and the
+// payload is the genuine plaintext sealed under the datagram's own nonce.
+const vParseMax = 21
+
+func vPacketParse(session bool) {
+	st := &vIdealState{}
+	blk := &vIdealCipher{st: st, key: 1, user: "alice"}
+	n0 := vNondetBytes("genuine.nonce", 24)
+	pt := vNondetBytes("genuine.pt", 2)
+	gbuf := make([]byte, 0, 18)
+	vAssert(blk.EncryptWithNonce(gbuf, n0, pt) == nil, "genuine seal")
+	gct := st.seals[0].ct
+	isClient := vNondetBool("isClient")
+	u := &PacketUnderlay{baseUnderlay: *newBaseUnderlay(isClient, 1400, nil), conn: &vFakePacketConn{}, serverAddr: vUDPAddr{"peer"}}
+	var passed cipher.BlockCipher = blk
+	if isClient {
+		u.block = blk
+		passed = nil
+	}
+	nonce := vNondetBytes("nonce", 24)
+	prefix, suffix, plen := 0, 0, 0
+	for L := 0; L <= vParseMax; L++ {
+		remaining := vNondetBytes("remaining", L)
+		var seg *segment
+		var err error
+		if session {
+			proto := vNondetU8("protocol")
+			vAssume(proto >= uint8(openSessionRequest) && proto <= uint8(closeSessionResponse))
+			ss := &sessionStruct{baseStruct: baseStruct{protocol: proto}, sessionID: vNondetU32("sid"), seq: vNondetU32("seq"), statusCode: vNondetU8("status"),
+				payloadLen: vNondetU16("payloadLen"), suffixLen: vNondetU8("suffixLen")}
+			seg, err = u.parseSessionSegment(ss, nonce, remaining, passed)
+			prefix, suffix, plen = 0, int(ss.suffixLen), int(ss.payloadLen)
+		} else {
+			proto := vNondetU8("protocol")
+			vAssume(proto == uint8(dataClientToServer) || proto == uint8(dataServerToClient) || proto == uint8(ackClientToServer) || proto == uint8(ackServerToClient))
+			das := &dataAckStruct{baseStruct: baseStruct{protocol: proto}, sessionID: vNondetU32("sid"), seq: vNondetU32("seq"), unAckSeq: vNondetU32("unack"),
+				windowSize: vNondetU16("win"), fragment: vNondetU8("frag"), prefixLen: vNondetU8("prefixLen"), payloadLen: vNondetU16("payloadLen"), suffixLen: vNondetU8("suffixLen")}
+			seg, err = u.parseDataAckSegment(das, nonce, remaining, passed)
+			prefix, suffix, plen = int(das.prefixLen), int(das.suffixLen), int(das.payloadLen)
+		}
+		if err != nil {
+			vAssert(seg == nil, "a rejected datagram yields no segment")
+			continue
+		}
+		vAssert(seg != nil, "accepted => a segment")
+		enc := 0
+		if plen > 0 {
+			enc = plen + 16
+		}
+		vAssert(prefix+enc+suffix == L, "accepted => prefix + payload(+tag) + suffix is EXACTLY the rest of the datagram (no truncated, no over-long datagram)")
+		if plen > 0 {
+			vAssert(plen == 2 && len(seg.payload) == 2, "accepted payload has the genuine length")
+			same := true
+			for i := 0; i < 24; i++ {
+				if nonce[i] != n0[i] {
+					same = false
+				}
+			}
+			vAssert(same, "accepted payload was sealed under the datagram's own nonce")
+			vAssert(seg.payload[0] == pt[0] && seg.payload[1] == pt[1], "accepted payload is the genuine plaintext")
+			for i := 0; i < 18; i++ {
+				vAssert(remaining[prefix+i] == gct[i], "accepted => ciphertext and tag are the genuine bytes at the offset the metadata names")
+			}
+		} else {
+			vAssert(len(seg.payload) == 0, "no payload length => no payload")
+		}
+	}
+}
+
+func vH_C04_packet_parse_session() { vPacketParse(true) }
+func vH_C04_packet_parse_dataack() { vPacketParse(false) }
